@@ -82,6 +82,14 @@ inductive Form where
   | unq
   /-- `P::nopeP(x)`: an item that does not exist -/
   | nofn
+  /-- `P::SP::mk(1)`: associated function of a type, by path -/
+  | smeth
+  /-- `P::SP::get(s)`: method of a type, by path, on a value `s = via::makeP()` obtained from `via` -/
+  | sself
+  /-- `P::TP::m(true)`: trait method, by path -/
+  | tmeth
+  /-- `let t = via::makeP(); t.v`: a value of a type of `P` is used, `P` itself is not named -/
+  | flow
   deriving DecidableEq, Repr, Inhabited
 
 structure Use where
@@ -91,7 +99,17 @@ structure Use where
   target : Pkg
   /-- an own item written with the package prefix -/
   qual : Bool
+  /-- `sself`, `flow`: the package whose function `makeP()` hands out the value (`P` itself when it is
+      the current package or imported, else an import of the current package that imports `P`) -/
+  via : Pkg := ""
   deriving DecidableEq, Repr, Inhabited
+
+/-- the packages a use *names* (roots of its paths): `flow` names only `via` -/
+def Use.named (u : Use) : List Pkg :=
+  match u.form with
+  | .flow => [u.via]
+  | .sself => [u.via, u.target]
+  | _ => [u.target]
 
 /-- the outermost constructor of the target type of an impl -/
 inductive Shape where
@@ -180,6 +198,15 @@ inductive Cls where
 
 def fileImports (q : PkgSrc) (file : Nat) : List Pkg := if file = 0 then q.imports else []
 
+/-- a value path rooted at package `p` (`p::f(…)`, `p::T::f(…)`): name resolution reports "not
+    imported" only when another file of the package imports `p` (l.674-683); it resolves — in name
+    resolution for two segments, in the typer through `genv.deps` for three — only when the file
+    imports `p` -/
+def pathCls (q : PkgSrc) (fi : List Pkg) (p : Pkg) : List Cls :=
+  if p == q.name then []
+  else (if q.imports.contains p && !fi.contains p then [.notImported] else []) ++
+       (if fi.contains p && q.imports.contains p then [] else [.unresolved])
+
 /-- diagnostics classes of one reference -/
 def useClasses (q : PkgSrc) (u : Use) : List Cls :=
   let fi := fileImports q u.file
@@ -189,8 +216,7 @@ def useClasses (q : PkgSrc) (u : Use) : List Cls :=
   match u.form with
   | .fn =>
     if own then (if u.qual && q.name == mainName then [.unresolved] else [])
-    else (if inDeps && !fi.contains u.target then [.notImported] else []) ++
-         (if fi.contains u.target && inDeps then [] else [.unresolved])
+    else pathCls q fi u.target
   | .nofn =>
     if own then [.unresolved]
     else (if inDeps && !fi.contains u.target then [.notImported] else []) ++ [.unresolved]
@@ -201,6 +227,11 @@ def useClasses (q : PkgSrc) (u : Use) : List Cls :=
   | .dynT => if allowed then [] else [.notImported, .unresolved]
   | .ctor => if allowed then [] else [.unresolved]
   | .bound => if allowed then [] else [.unresolved]
+  | .smeth => pathCls q fi u.target
+  | .tmeth => pathCls q fi u.target
+  | .sself => pathCls q fi u.via ++ pathCls q fi u.target
+  -- the field access needs the environment of the struct's package: present iff the package imports it
+  | .flow => pathCls q fi u.via ++ (if own || inDeps then [] else [.unresolved])
 
 /-- every package defines `impl TP for SP` itself -/
 def stdKey (p : Pkg) : Key := ⟨p, .nom, p, "", "S"⟩
